@@ -48,9 +48,11 @@ class SZInt:
         self.t = t
 
     @staticmethod
-    def fresh(name, lo=0):
+    def fresh(name, lo=0, hi=None):
         v = z3.Int(name)
         C.zint_axioms.append(v >= lo)
+        if hi is not None:
+            C.zint_axioms.append(v <= hi)
         return SZInt(v)
 
     def __add__(self, o): return SZInt(self.t + _term(o))
@@ -78,16 +80,23 @@ class SZInt:
         return SZInt(self.t % (mask + 1))
     __rand__ = __and__
     def __invert__(self): return SZInv(self)
+    def __xor__(self, mask):
+        mask = int(mask)
+        if mask < 0 or mask & (mask + 1): raise core.OutOfReach("xor of a symbolic integer with a value that is not 2^k - 1")
+        low = self.t % (mask + 1)
+        return SZInt(self.t - low + (mask - low))
+    __rxor__ = __xor__
+    def __index__(self): raise core.OutOfReach("a symbolic integer used as an index / count")
     def bit(self, i): return zbool((self.t / (1 << i)) % 2 == 1)
     def to_bytes(self, length=1, byteorder="big", signed=False):
         """octets of a value the caller knows to fit (an overflow is a separate fork: CPython raises OverflowError)"""
         from .values import SBytes
         if bool(zbool(self.t >= (1 << (8 * length)))) or bool(zbool(self.t < 0)):
             raise OverflowError("int too big to convert")
-        by = [SInt(tuple(self.bit(8 * i + j) for j in range(8))).n() for i in range(length)]
+        by = [SZInt((self.t / (1 << (8 * i))) % 256) for i in range(length)]  # word-level octets (no bit extraction)
         if byteorder == "big":
             by.reverse()
-        r = SBytes(by)
+        r = ZBytes(by)
         r.zsrc = (self, byteorder)  # ghost: the word these octets spell (lets a contract compare at word level)
         return r
     def __hash__(self): raise core.OutOfReach("hash of symbolic int")
@@ -117,3 +126,67 @@ class SZInv:
 
     def __invert__(self):
         return self.x
+
+
+class ZBytes:
+    """octet string whose elements are word-level integers (SZInt in 0..255, or ints): what bytes([...]) / to_bytes() give
+    for symbolic integers; arithmetic on it stays in linear integer arithmetic, no bit extraction"""
+
+    def __init__(self, items):
+        self.v = list(items)
+
+    def __getattr__(self, k):
+        raise core.ModelGap("'ZBytes' proxy has no model of attribute '%s'" % k)
+
+    def __len__(self):
+        return len(self.v)
+
+    def __iter__(self):
+        return iter(list(self.v))
+
+    def __getitem__(self, i):
+        if isinstance(i, slice):
+            return ZBytes(self.v[i])
+        return self.v[i]
+
+    @staticmethod
+    def _items(o):
+        if isinstance(o, ZBytes):
+            return list(o.v)
+        if isinstance(o, (bytes, bytearray)):
+            return list(o)
+        if type(o).__name__ == "SBytes":
+            return list(o.v)
+        raise core.OutOfReach("concatenation of word-level octets with %s" % type(o).__name__)
+
+    def __add__(self, o):
+        return ZBytes(self.v + ZBytes._items(o))
+
+    def __radd__(self, o):
+        return ZBytes(ZBytes._items(o) + self.v)
+
+    def __eq__(self, o):
+        try:
+            ov = ZBytes._items(o)
+        except core.OutOfReach:
+            return False
+        if len(ov) != len(self.v):
+            return False
+        r = 1
+        for x, y in zip(self.v, ov):
+            e = (x == y) if isinstance(x, SZInt) else ((y == x) if isinstance(y, (SZInt, SInt, SLin)) else (x == y))
+            if e is False or e == 0 and not isinstance(e, SBit):
+                return False
+            if isinstance(e, SBit):
+                r = e & r if isinstance(r, SBit) else (e if r else 0)
+        return r if isinstance(r, SBit) else bool(r)
+
+    def __ne__(self, o):
+        r = self.__eq__(o)
+        return ~r if isinstance(r, SBit) else (not r)
+
+    def __hash__(self):
+        raise core.OutOfReach("hash of symbolic octets")
+
+    def __repr__(self):
+        return "<%d word-level octets>" % len(self.v)
